@@ -405,9 +405,9 @@ fn gen_message(kind: u8, r: &mut Rng) -> Message {
         3 => Message::Ack {
             file_id: r.next_u64(),
             success: r.coin(),
-            message: if r.coin() { Some("é".repeat(r.usize_below(300))) } else { None },
+            message: if r.coin() { Some("é".repeat(if r.coin() { r.usize_below(300) } else { r.usize_below(6000) })) } else { None },
         },
-        4 => Message::Error { code: r.next_u64() as u32, message: "x".repeat(r.usize_below(5000)) },
+        4 => Message::Error { code: r.next_u64() as u32, message: "x".repeat(if r.coin() { r.usize_below(5000) } else { r.usize_below(40_000) }) },
         5 => Message::Ping { seq: r.next_u64() },
         _ => Message::Pong { seq: r.next_u64() },
     }
@@ -422,7 +422,7 @@ impl Check for C20 {
         "fault_enumeration"
     }
     fn rule(&self) -> String {
-        "one run = one message of one of the seven kinds (empty and large signatures/deltas) written by Codec::write_message into a simulated stream and then read back under one fault: none (control, benign chunking / Interrupted), truncation at a seeded offset (thorough: every offset of sampled messages), corruption of each of the 12 header bytes, payload byte corruption, random bytes, read error at byte n, arbitrary 12-byte headers; or a `copia delta` / `copia patch` run on a hostile signature / delta file (block size 0 / not a power of two / huge, element counts up to 2^64-1, truncations, flips). Non-trivial = a fault was applied; distinct = hash of (mode, message kind, fault position)".into()
+        "one run = one message of one of the seven kinds (empty and large signatures/deltas) written by Codec::write_message into a simulated stream and then read back under one fault: none (control, benign chunking / Interrupted), truncation at a seeded offset (thorough: every offset of sampled messages), corruption of each of the 12 header bytes, payload byte corruption, a hostile 64-bit count written over the length prefixes at the start of small and large (> 4 KiB) payloads, random bytes, read error at byte n, arbitrary 12-byte headers; or a `copia delta` / `copia patch` run on a hostile signature / delta file (block size 0 / not a power of two / huge, element counts up to 2^64-1, truncations, flips). Non-trivial = a fault was applied; distinct = hash of (mode, message kind, fault position)".into()
     }
     fn assumptions(&self) -> Vec<String> {
         vec![
@@ -454,6 +454,7 @@ impl Check for C20 {
             13 => 5,
             14 | 15 => 6,
             16 | 17 => 7,
+            18 => 10,
             _ => 8,
         };
         Sc20 { seed: r.next_u64(), mode, msg_kind: r.below(7) as u8, param: r.next_u64() }
@@ -587,6 +588,24 @@ impl Check for C20 {
                     bytes[4..8].copy_from_slice(&l.to_le_bytes());
                 }
                 fault = "random-bytes";
+            }
+            10 => {
+                // a hostile 64-bit count written over 8 bytes near the start of the payload (where the
+                // length prefixes of strings, block lists and op lists live), for small and large frames
+                if bytes.len() >= 12 + 8 {
+                    let span = (bytes.len() - 12 - 7).min(48) as u64;
+                    let i = 12 + (sc.param % span) as usize;
+                    let v: u64 = match (sc.param >> 8) % 6 {
+                        0 => u64::MAX,
+                        1 => 1 << 63,
+                        2 => 1 << 40,
+                        3 => (1 << 32) + (sc.param >> 16) % 4096,
+                        4 => (bytes.len() as u64) + (sc.param >> 16) % 4096,
+                        _ => (64 << 20) + (sc.param >> 16) % 4096,
+                    };
+                    bytes[i..i + 8].copy_from_slice(&v.to_le_bytes());
+                }
+                fault = "hostile-length-field";
             }
             5 => {
                 plan.fail_at = Some(sc.param % (bytes.len() as u64 + 1));
